@@ -88,6 +88,7 @@ def run(ctx, crate):
         cen = [ev for ev in e.events.values() if ev.callee == cpc]; vl = [ev for ev in e.events.values() if ev.callee == fn2]
         ok = len(cen) == 1 and len(vl) == 1 and cen[0].args[1] == param("hash") and vl[0].args[1] == ('fld', cen[0].ret, 0) and vl[0].args[2] == ('fld', cen[0].ret, 1)
         ctx.report(clause, fn3.split("::")[-1] + ":via-vertex_lonlat(centre)", ok, "%s(hash, ..) = vertex_lonlat(center_of_projected_cell(hash), dir)" % fn3.split("::")[-1], at=b3.span)
+    hash_with_dxdy_wrap(ctx, crate)
     # base-cell centre offsets table vs model
     fnc = "nested::compute_base_cell_center_offsets_in_8x3_grid"
     cand = [p for p in crate.bodies if p.endswith("compute_base_cell_center_offsets_in_8x3_grid")]
@@ -103,3 +104,27 @@ def run(ctx, crate):
             want = (int(cx), int(cy))
             if got != want: bad.append((base, got, want))
         ctx.report("base-cell-centres", fnc.split("::")[-1], not bad, "the 12 base-cell centre offsets equal the model's (x, y) = (2b+1, 1), (2(b-4), 0), (2(b-8)+1, -1)" if not bad else "differ: %s" % bad[:3], at=bc.span if bc else None, kind="N")
+
+
+def hash_with_dxdy_wrap(ctx, crate, clause="hash_with_dxdy-wrap"):
+    """N: hash_with_dxdy feeds the projected x, wrapped into [0, 8), to the cell decomposition.
+    proj() returns x with the sign of the longitude (x in [-8, 8]); shift_rotate_scale computes
+    8 - x and casts sums to unsigned integers, so a negative x (any negative longitude beyond a
+    fraction of a base cell) gives a wrong cell / negative offsets."""
+    fn = L + "hash_with_dxdy"
+    b = ctx.anchor(crate, fn, clause)
+    if b is None: return
+    srs = L + "shift_rotate_scale"
+    e = Engine(crate, opaque={"proj", "ensures_x_is_positive", srs, "nested::discretize", L + "depth0_bits", L + "base_cell_coos", L + "to_coos_in_base_cell", L + "build_hash"})
+    e.run(fn); ctx.functions |= e.visited_fns
+    evs = [ev for ev in e.events.values() if len(ev.site) == 2]
+    pj = [ev for ev in evs if ev.callee == "proj"]; en = [ev for ev in evs if ev.callee == "ensures_x_is_positive"]; sr = [ev for ev in evs if ev.callee == srs]
+    ok = len(pj) == 1 and len(sr) == 1 and pj[0].args == [param("lon"), param("lat")]
+    detail = "proj: %d call(s), shift_rotate_scale: %d" % (len(pj), len(sr))
+    if ok:
+        xy = sr[0].argvals[1] if sr[0].argvals else None
+        x = xy[3][0] if xy is not None and xy[0] == 'agg' else None
+        wrapped = [w for w in en if w.ret == x and w.args[0] == ('fld', pj[0].ret, 0)]
+        ok = bool(wrapped) and xy[3][1] == ('fld', pj[0].ret, 1)
+        detail = "shift_rotate_scale receives (ensures_x_is_positive(proj(lon, lat).0), proj(lon, lat).1)" if ok else "the x handed to shift_rotate_scale is %s: not the projected x wrapped into [0, 8)" % (show(x)[:80] if x else None)
+    ctx.report(clause, fn + ":x-wrapped-before-decomposition", ok, detail, at=b.span, kind="N")
